@@ -23,6 +23,9 @@ def run(ctx):
         "Client.ListOffsets keeps one timestamp per offset (map keyed by offset): two time queries resolving to the same offset report one of the requested timestamps",
     ]
     broken = []
+    ok, log = ctx.extract("offsets", ["lean/KafkaVerif/Gen/Offsets.lean"])
+    if not ok:
+        broken.append({"kind": "obligation", "name": "translator go/extract offsets", "detail": log[-1500:]})
     res = ctx.prove(MODULE)
     if not res["ok"]:
         broken.append({"kind": "obligation", "theorems": res["failed"], "detail": res["reasons"][:10]})
